@@ -347,7 +347,7 @@ func (k Keeper) DistributeBounty(ctx sdk.Context, task types.Task) error {
 					amount := bounty.Amount.Mul(
 						amplifier.Mul(collateral).Quo(response.Score.Add(taskParams.Epsilon1)),
 					).Quo(totalValidTaskCollateral)
-					reward := sdk.NewCoins(sdk.NewCoin(task.Bounty[0].Denom, amount))
+					reward := sdk.NewCoins(sdk.NewCoin(bounty.Denom, amount))
 					if err := k.AddReward(ctx, operatorAddr, reward); err != nil {
 						continue
 					}
